@@ -585,8 +585,11 @@ def bounded(tier_name, rnd):
             vio.append({"name": "program %s, instantiation %d, call %d %s%r == reference" % (pr[0], rnd_i + 1, ci, call[0], tuple(call[1])),
                         "input": {"program": pr[0], "wat": pr[1]}, "expected": repr(want), "observed": repr(got)})
     evals += ncalls
+    nat = _native_part(tier_name, fs)
+    evals += nat["evaluations"]
+    vio += nat["violations"]
     s0 = list(fs.values())[0]
-    return {"evaluations": evals, "distinct_nontrivial": evals, "exhaustive": True, "program_calls": ncalls,
+    return {"evaluations": evals, "distinct_nontrivial": evals, "exhaustive": True, "program_calls": ncalls, "native_target": {k: v for k, v in nat.items() if k != "violations"},
             "rule": "one exported function per numeric instruction of the supported set (%d functions: every i32/i64/f32/f64 arithmetic, bitwise, shift, rotate, "
                     "count, comparison, conversion, truncation, reinterpretation, sign-extension instruction, plus 5 functions reaching an operator through "
                     "constants / select / if) x the full product of a boundary-value grid per operand type (powers of two +-1, type minima / maxima, shift "
@@ -605,7 +608,117 @@ def bounded(tier_name, rnd):
 _KNOWN_E2E = []
 
 
+# ---- native execution target: the same single-instruction module, in a child process ------------------------------
+def _run_native_child(tier_name, verbose, skip_traps, names, exclude=None, timeout=900):
+    import json as _json
+    import os
+    import subprocess
+    import sys
+    here = os.path.dirname(os.path.dirname(os.path.abspath(__file__)))
+    env = dict(os.environ)
+    env["WASM_NATIVE_EXCLUDE"] = _json.dumps(exclude or {})
+    try:
+        p = subprocess.run([sys.executable, "-m", "contracts.wasm_native_child", tier_name, "1" if verbose else "0", "1" if skip_traps else "0"] + list(names),
+                           capture_output=True, text=True, env=env, timeout=timeout, cwd=here)
+    except subprocess.TimeoutExpired:
+        return None, [], "timeout"
+    lines = []
+    for l in p.stdout.splitlines():
+        if l.startswith("{"):
+            try:
+                lines.append(_json.loads(l))
+            except ValueError:
+                pass
+    return p.returncode, lines, p.stderr[-400:]
+
+
+def _native_known_exclusions():
+    from pyvc.runner import load_known
+    ex = {}
+    for d in load_known("C22"):
+        i = d.get("input", {})
+        if d.get("bounded") and i.get("target") == "native" and i.get("crash"):
+            ex.setdefault(i["function"], []).append(i["args"])
+    return ex
+
+
+def _native_part(tier_name, fs):
+    """every export of the single-instruction module on the native target; inputs on which WebAssembly traps are
+    not evaluated there (integer-division traps kill the process, see the known findings)"""
+    names = list(fs)
+    excl = _native_known_exclusions()
+    todo, evals, vio, crashes, done = list(names), 0, [], 0, 0
+    while todo:
+        rc, lines, err = _run_native_child(tier_name, False, True, todo, excl)
+        if rc is None:
+            return {"evaluations": evals, "functions": done, "skipped": "child timed out (not judged)", "violations": vio}
+        started = None
+        for l in lines:
+            if "start" in l:
+                started = l["start"]
+            elif "done" in l:
+                started = None
+                done += 1
+                evals += l["n"]
+                for b in l["bad"][:2]:
+                    vio.append({"name": "wasm %s%r on the native target == WebAssembly semantics" % (l["done"], tuple(_unj(a) for a in b["args"])),
+                                "input": {"target": "native", "function": l["done"], "wat": fs[l["done"]][1], "args": b["args"]},
+                                "expected": b["expected"], "observed": b["observed"]})
+        if started is None:
+            if rc != 0:
+                vio.append({"name": "native child process completes", "input": {"target": "native", "function": None}, "expected": "exit 0", "observed": "exit %s: %s" % (rc, err[-200:])})
+            break
+        # the child died inside `started`: find the call
+        crashes += 1
+        rc2, lines2, err2 = _run_native_child(tier_name, True, True, [started], excl)
+        last = None
+        for l in lines2:
+            if "call" in l:
+                last = l["call"]
+        vio.append({"name": "wasm %s%r on the native target returns (process killed)" % (started, tuple(_unj(a) for a in (last or []))),
+                    "input": {"target": "native", "function": started, "wat": fs[started][1], "args": last, "crash": True},
+                    "expected": "a result", "observed": "child process exit status %s" % rc2})
+        todo = todo[todo.index(started) + 1:]
+        if crashes > 6:
+            break
+    # the multi-feature programs (all but the trap program) on the native target
+    rc, lines, err = _run_native_child(tier_name, False, True, ["--programs"])
+    progs, started = 0, None
+    for l in lines:
+        if "start" in l:
+            started = l["start"]
+        elif "done" in l:
+            started = None
+            progs += 1
+            evals += l["n"]
+            for b in l["bad"]:
+                vio.append({"name": "program %s on the native target, instantiation %d, call %s == reference" % (l["done"], b["instantiation"], b["call"]),
+                            "input": {"target": "native", "program": l["done"]}, "expected": b["expected"], "observed": b["observed"]})
+    if rc is not None and (rc != 0 or started is not None):
+        vio.append({"name": "program %s on the native target completes (process killed)" % started, "input": {"target": "native", "program": started, "crash": True},
+                    "expected": "results", "observed": "child process exit status %s" % rc})
+    return {"evaluations": evals, "functions": done, "programs": progs, "crashes": crashes,
+            "note": "inputs on which WebAssembly traps are not evaluated on the native target", "violations": vio}
+
+
 def replay_bounded(inp):
+    if inp.get("target") == "native" and "program" in inp:
+        rc, lines, err = _run_native_child("quick", False, True, ["--programs"])
+        for l in lines:
+            if l.get("done") == inp["program"]:
+                if l["bad"]:
+                    return False, dict(l["bad"][0], target="native", program=inp["program"])
+                return True, {"target": "native", "program": inp["program"], "observed": "every call equals the reference"}
+        return False, {"target": "native", "program": inp["program"], "expected": "results", "observed": "child process exit status %s" % rc}
+    if inp.get("target") == "native":
+        import json as _json
+        rc, lines, err = _run_native_child("quick", False, False, ["@" + _json.dumps(inp["args"]), inp["function"]])
+        for l in lines:
+            if "done" in l:
+                if l["bad"]:
+                    return False, {"target": "native", "function": inp["function"], "args": inp["args"], "expected": l["bad"][0]["expected"], "observed": l["bad"][0]["observed"]}
+                return True, {"target": "native", "function": inp["function"], "args": inp["args"], "observed": "equals the reference"}
+        return False, {"target": "native", "function": inp["function"], "args": inp["args"], "expected": "a result", "observed": "child process exit status %s" % rc}
     if "program" in inp:
         from contracts import wasmprogs as WP
         pr = [q for q in WP.PROGRAMS if q[0] == inp["program"]][0]
@@ -625,6 +738,6 @@ ASSUMED = ["gen_binop contracts: the WebAssembly bitwise operators on n-bit patt
            "finite doubles are modelled by their exact real value as arbitrary reals (over-approximation, sound for proofs; pyvc.symfloat); no floating-point arithmetic is modelled",
            "f32 operands are doubles that happen to be representable in binary32: the contracts quantify over every double (a superset)",
            "the spec functions of contracts/c39.py are the WebAssembly integer operator definitions (irotl, irotr, iclz, ictz, ipopcnt, iextendM_s)"]
-NOT_COVERED = ["wasm -> IR translation, instantiation, memory, globals, traps, the native execution target (whole-pipeline behaviour against a reference "
-               "engine is outside contract reach)", "rounding to binary32 (_round_f32, struct.pack in C) and the value of sqrt for positive operands: assumed contracts here, exercised by the bounded stand-in only",
+NOT_COVERED = ["whole-pipeline agreement with a reference engine on arbitrary generated modules (outside contract reach; the bounded stand-in covers the single-instruction "
+               "module and ten programs on both targets, without trapping inputs on the native target)", "imports, start functions, bulk-memory and reference-type instructions", "rounding to binary32 (_round_f32, struct.pack in C) and the value of sqrt for positive operands: assumed contracts here, exercised by the bounded stand-in only",
                "reinterpret helpers (struct pack / unpack of float bit patterns): bounded stand-in only"]
